@@ -634,3 +634,27 @@ def exact_selection(chk, rule, what, f, cfg, node, head, want, text=None):
     chk.ob(rule, what, got == positive(set(want)), f.where(node.ast), detail="selected by %s, expected exactly %s" % (sorted(got), sorted(want)),
            construct=f.ident, text=text or ("selection of " + node.text(50)))
     return got
+
+
+def running_min_ifs(func_node, var, item):
+    """The `if` statements that implement a running minimum of `item` into `var`:  if not var or var > item: var = item  (any spelling
+    of the comparison, operands in either order).  Returns (exact, inexact): ifs whose test is exactly that disjunction and whose body
+    assigns item to var, and ifs that assign item to var under some other test."""
+    exact, inexact = [], []
+    for n in ast.walk(func_node):
+        if not isinstance(n, ast.If):
+            continue
+        asg = [x for x in n.body if isinstance(x, ast.Assign) and len(x.targets) == 1 and src(x.targets[0]) == var and src(x.value) == item]
+        if not asg:
+            continue
+        t = n.test
+        ok = isinstance(t, ast.BoolOp) and isinstance(t.op, ast.Or) and len(t.values) == 2
+        if ok:
+            a, b = t.values
+            if not (isinstance(a, ast.UnaryOp) and isinstance(a.op, ast.Not)):
+                a, b = b, a
+            ok = isinstance(a, ast.UnaryOp) and isinstance(a.op, ast.Not) and src(a.operand) == var and isinstance(b, ast.Compare) and len(b.ops) == 1 and (
+                (isinstance(b.ops[0], ast.Gt) and src(b.left) == var and src(b.comparators[0]) == item) or
+                (isinstance(b.ops[0], ast.Lt) and src(b.left) == item and src(b.comparators[0]) == var))
+        (exact if ok and not n.orelse else inexact).append(n)
+    return exact, inexact
